@@ -43,6 +43,11 @@ def run(tier, seed):
     vh_pg = vf.build_vh(tags=pg)
     base = rnd.sample(chosen, 200 if quick else len(chosen))
     wide = [{"id": i + 1, "pages": s["pages"], "stretch": (9, 20, 70)[i % 3]} for i, s in enumerate(base)]
+    # every fourth of them with the column's page bounds and / or page statistics switched off: what is still
+    # recorded must still be true
+    for i, s in enumerate(wide):
+        if i % 4 == 3:
+            s["skip"] = ("bounds", "stats", "both")[(i // 4) % 3]
     for name, v, tags in (("wide", vh, None), ("wide-purego", vh_pg, pg)):
         _, w, wr, _ = PIPE.run(v, wd, wide, seed, out=out, name=name, tags=tags)
         for k, n in w["cnt"].items():
